@@ -175,8 +175,8 @@ def renamed_fns(parsed):
                                                        for rv in defs.get(0, []))):
                 continue
             # same owner (method renamed within its impl, or a free function within its module)
-            if rb['path'].rsplit('::', 1)[0] != q.rsplit('::', 1)[0]:
-                continue
+            if rb['path'].rsplit('::', 1)[0] != q.rsplit('::', 1)[0] and not (_is_free_fn(rb['path']) and _is_free_fn(q)):
+                continue        # (a free function may have moved with its module: `wallpaper::get_x` -> `plane_group::x`)
             if q in out and out[q] != rb['path']:
                 continue
             out[q] = rb['path']
@@ -330,6 +330,8 @@ class Facts:
                     qs, ps = q.split('::'), p_.split('::')
                     if len(qs) >= 2 and qs[-2][:1].isupper():
                         subst.setdefault('packing::' + '::'.join(qs[-2:]), 'packing::' + '::'.join(ps[-2:]))
+                    elif len(qs) >= 2:
+                        subst.setdefault('packing::' + q, 'packing::' + p_)
                 pat = _re.compile('(?<![A-Za-z0-9_])(' + '|'.join(_re.escape(k) for k in sorted(subst, key=len, reverse=True)) +
                                   ')(?![A-Za-z0-9_])')
                 texts = {n: pat.sub(lambda m: subst[m.group(1)], t) for n, t in texts.items()}
